@@ -28,7 +28,7 @@ FLOORS = {
               'kind:number-beyond': 60, 'kind:number-below': 60, 'kind:text': 20, 'kind:logical': 10,
               'kind:error': 10, 'kind:number-to-text': 30, 'kind:text-to-number': 10, 'not_implemented_cases': 30,
               'exception_cases': 30, 'other_reported_cells_checked': 100, 'tol:None': 100, 'tol:0.001': 100,
-              'outputs:chosen': 100, 'outputs:all': 100},
+              'outputs:chosen': 100, 'outputs:all': 100, 'prelude:noop-write': 40, 'prelude:read-input': 40},
     'thorough': {'validate_calls': 12000, 'alterations': 8000, 'kind:logical': 300, 'kind:error': 300,
                  'not_implemented_cases': 600, 'exception_cases': 600},
 }
@@ -89,14 +89,39 @@ def reachable(meta, outputs):
     return {a for a in out if a in meta['formulas']}
 
 
-def one_validate(ctx, spec, meta, stored, outputs, tol, altered, kind, new_value, truth):
+PRELUDES = ('none', 'none', 'read-input', 'noop-write')
+
+
+def prelude(comp, spec, meta, how, pick):
+    """calls a driver may make before validating that leave the workbook as the file has it: reading an input,
+    and writing to an input the value it already has"""
+    inputs = [a for a in meta['order'] if a not in meta['formulas']]
+    if how == 'none' or not inputs:
+        return
+    addr = inputs[pick % len(inputs)]
+    s, c = addr.rsplit('!', 1)
+    value = dict(spec['sheets'])[s].get(c)
+    quiet(comp.evaluate, addr)       # set_value needs the cell in the cell map
+    if how == 'noop-write' and value is not None:
+        quiet(comp.set_value, addr, value)
+
+
+def one_validate(ctx, spec, meta, stored, outputs, tol, altered, kind, new_value, truth, how='none', pick=0):
     """run validate_calcs on the workbook with ``stored`` results; check the report"""
     from pycel import ExcelCompiler
     case = {'spec': spec, 'meta': meta, 'outputs': outputs, 'tol': tol, 'altered': altered, 'kind': kind,
-            'new_value': new_value}
+            'new_value': new_value, 'prelude': how, 'pick': pick}
     path = os.path.join(ctx.tmpdir, 'c12.xlsx')
     wb.write_xlsx(spec, path, stored)
     comp = ExcelCompiler(filename=path)
+    try:
+        prelude(comp, spec, meta, how, pick)
+    except Exception as exc:
+        if not wb.raised_outside_harness(exc):
+            raise
+        ctx.violation('prelude-raises', f'{how} of an input before validate_calcs raised {wb.describe(exc)}', case)
+        return
+    ctx.count('prelude:' + how)
     kw = {}
     if outputs is not None:
         kw['output_addrs'] = list(outputs)
@@ -237,7 +262,8 @@ def one_workbook(ctx, rng, spec, meta, n_alter):
             continue
         kind = rng.choice(kinds)
         new = alter(rng, stored[cell], kind, tol)
-        one_validate(ctx, spec, meta, dict(stored, **{cell: new}), outputs, tol, cell, kind, new, stored[cell])
+        one_validate(ctx, spec, meta, dict(stored, **{cell: new}), outputs, tol, cell, kind, new, stored[cell],
+                     how=rng.choice(PRELUDES), pick=rng.randrange(1000))
     plain = [a for a in formulas if a not in wb.array_members(spec)]
     if plain:
         one_unevaluable(ctx, spec, meta, stored, rng.choice(plain), rng.choice(['nosuch', 'failk']))
@@ -277,4 +303,4 @@ def replay(ctx, case):
     else:
         truth = None
     one_validate(ctx, spec, meta, stored, case['outputs'], case['tol'], case['altered'], case['kind'],
-                 case['new_value'], truth)
+                 case['new_value'], truth, how=case.get('prelude', 'none'), pick=case.get('pick', 0))
